@@ -307,7 +307,7 @@ _RE_GEN = re.compile(r"^(\d+) states generated, (\d+) distinct states found", re
 _RE_SIMGEN = re.compile(r"states checked|The number of states generated: (\d+)")
 _RE_DEPTH = re.compile(r"The depth of the complete state graph search is (\d+)")
 _RE_INV = re.compile(r"Error: Invariant (\S+) is violated")
-_RE_PROP = re.compile(r"Error: (?:Temporal properties were violated|Action property (\S+) is violated)")
+_RE_PROP = re.compile(r"Error: (?:Temporal properties were violated|Temporal property (\S+) was violated|Action property (\S+) is violated)")
 _RE_POST = re.compile(r"Error: .*[Pp]ost-?condition.*|Error: The postcondition .*")
 
 
@@ -332,7 +332,7 @@ def parse_tlc(r, simulate):
         r.violated = "deadlock"
     elif _RE_PROP.search(out):
         mm = _RE_PROP.search(out)
-        r.violated = mm.group(1) or "temporal"
+        r.violated = mm.group(1) or mm.group(2) or "temporal"
     elif "The first argument of Assert evaluated to FALSE" in out:
         r.violated = "assert"
     elif re.search(r"ostcondition", out) and "Error:" in out:
